@@ -431,6 +431,9 @@ def check(ctx):
                 okw = bool(tg) and all(_inward_sites(prog, x) for x in tg)
             ctx.check(okw, fn, s, f"OS[{key}] <- inward-rounded bound", f"optim_state['{key}'] is written from something that is not an inward-rounded hard bound", construct=f"OS[{key}] <- {canon(v)[:50]}")
 
+    from .common import helper_purity
+
+    helper_purity(ctx, prog, "R6")
     ctx.assume("NaN coordinates are excluded by the finite-bounds validation (min/max propagate NaN)")
     ctx.assume("effective bounds lb + c*range / ub - c*range (c > 0 literal) lie inside the hard bounds; rounding to the grid moves a value by at most half a cell")
     ctx.assume("numpy minimum/maximum/clip and boolean row selection semantics")
